@@ -51,6 +51,9 @@ TEXT = {
  "C14": ("exploration", "histories of <=12 actions over recording client/server session stores (connects with fault masks/EMS/suites/CID, overlapping connects, store mutations, provoked fatal alerts); invariant after every step",
          "DTLS 1.2 only (1.3 tickets are never consumed in this tree); store model = harness stores; Finished-forgery in the abbreviated handshake is covered under C04",
          "stateful property-based testing (rapid action sequences) against a session-store model on a virtual network/clock"),
+ "C15": ("exploration", "sessions for every pair of connection-ID lengths (absent, send-only, zero, 1..20) x version x return-routability on/off (extension stripped through the flight hook) x observed side; the honest peer's datagrams are captured and delivered with generated source addresses, order and delay (authentic newest / stale / replayed / ID-damaged records from new addresses, timely / late / misdirected / duplicated / held path responses, racing candidates, writes while validation is pending); rrc.Manager additionally driven by generated operation histories against a cumulative model; listener routing over real loopback sockets (rebinding, another client's socket, junk)",
+         "the peer is an honest pion endpoint and the harness holds no keys (no forged cookies); listener sub-check uses real time with repeated writes, a payload nobody reads within 3 s of repeats counts as not routed and must reproduce on replay",
+         "property-based testing (rapid) + enumerated scenario grid on a virtual network/clock with a passive decoder; model-based testing of the path manager; oracle = address changes only after a valid timely response from the challenged address, challenge only after an authentic newest ID-bearing record, bytes to unvalidated address <= 3x received, peer ID on every protected record, routing by ID"),
  "C16": ("exploration", "Close placed at every datagram-count event / virtual instant / after establishment for 7 variants, 1..4 concurrent closers, 1..3 calls each, pending Handshake/Read/Write/UpdateKeys; close_notify counted with the independent decoder; goroutine-leak scan; concurrent API op lists also run under the race detector; deadlines at exact virtual instants",
          "goroutine interleavings are those the scheduler, repetition and the race detector reach; pending calls during a handshake that needs timers are not generated (a goroutine parked on the handshake mutex blocks synctest's virtual clock)",
          "property-based testing (rapid) + enumerated placement grid in a synctest bubble, race-detector build for the concurrent-API scenarios; oracle = lifecycle invariants over recorded calls and tapped alerts"),
